@@ -55,6 +55,14 @@ def conditions():
             yield ("and", c_, ("not", t_))
     yield ("and", TA, ("not", TY))
     yield ("or", ("and", TA, TB), ("not", TA))
+    # the (possibly falsy) result of a symbolic function as an OPERAND of a comparison
+    FN = ("fn", ("attr", "x", "a"), ("attr", "y", "b"))
+    FN1 = ("fn", ("attr", "x", "a"), ("attr", "x", "b"))
+    for f_ in (FN, FN1):
+        for c_ in (("cmp", "==", f_, ("const", False)), ("cmp", "!=", f_, ("const", True)), ("cmp", "==", f_, ("const", True))):
+            yield c_
+            yield ("not", c_)
+            yield ("and", A2[1], c_)
     # a nested sub-query as an operand, correlated with a variable of the enclosing query or not
     SUBS = [("eqsub", ("var", "x"), "u", ("cmp", "==", ("attr", "u", "a"), ("attr", "y", "b"))),
             ("eqsub", ("var", "x"), "u", ("cmp", "<", ("attr", "u", "a"), ("attr", "y", "a"))),
